@@ -15,12 +15,14 @@ import (
 type GenOpts struct {
 	Defective   bool // allow defective / missing callees
 	Ties        bool // bias towards tie-making fragments and headers
-	Corpus      bool // allow whole corpus files and corpus projects
+	Corpus      bool // allow whole corpus files
+	Projects    bool // allow corpus projects (some have defective callees)
 	Loose       bool // allow files outside any repository
 	MaxRepos    int
 	MaxFiles    int // per repository
 	SelfArg     bool // allow called reusable workflows to be arguments themselves
 	PathConfigs bool // configs with `paths` ignore entries
+	Clone       bool // some worlds reuse one workflow text for several files (same code paths collide: shared tables, caches)
 }
 
 // RepoInfo describes one generated repository.
@@ -119,6 +121,9 @@ func GenMulti(c *Chooser, o GenOpts) *MultiWorld {
 	cp := LoadCorpus()
 	disk := kern.NewDisk()
 	mw := &MultiWorld{World: &World{Disk: disk, API: APIFiles}, RepoOf: map[string]string{}, Groups: map[string][]string{}}
+	clone := o.Clone && c.Weighted("world.clone", 1, 3)
+	var cloneText string
+	var cloneAssets, cloneGroups []string
 	nrepos := 1 + c.Int("world.nrepos", o.MaxRepos)
 	// choose distinct roots; a nested root is only meaningful with its parent present or absent - both are fine
 	avail := append([]string(nil), repoRoots...)
@@ -147,7 +152,7 @@ func GenMulti(c *Chooser, o GenOpts) *MultiWorld {
 			}
 			disk.Put(root+"/.github/"+name, []byte(r.Config))
 		}
-		if o.Corpus && len(cp.Projects) > 0 && c.Weighted("world.project", 1, 4) {
+		if o.Projects && len(cp.Projects) > 0 && c.Weighted("world.project", 1, 4) {
 			// a corpus project, laid out as a real repository: the tree as is, plus its
 			// workflows mirrored under .github/workflows and its config under .github
 			p := cp.Projects[c.Int("world.projsel", len(cp.Projects))]
@@ -173,7 +178,14 @@ func GenMulti(c *Chooser, o GenOpts) *MultiWorld {
 						continue
 					}
 				}
-				text, assetNames, groups := composeWorkflow(c, o, ri*10+fi)
+				var text string
+				var assetNames, groups []string
+				if clone && cloneText != "" {
+					text, assetNames, groups = cloneText, cloneAssets, cloneGroups
+				} else {
+					text, assetNames, groups = composeWorkflow(c, o, ri*10+fi)
+					cloneText, cloneAssets, cloneGroups = text, assetNames, groups
+				}
 				disk.Put(name, []byte(text))
 				InstallAssets(func(p, ct string) { disk.Put(p, []byte(ct)) }, root, assetNames)
 				r.Workflows = append(r.Workflows, name)
